@@ -60,10 +60,27 @@ CHECKS["C06"] = {
             "are checked after every step. Evidence, not proof.",
     "note": "positive margins only (as quantified); margins obtained both from CVRs and from tallies; 1e-12 slack on ranges",
 }
+CHECKS["C08"] = {
+    "engine": "AuditWorld", "ref": "DESIGN.md 4 (C08)",
+    "technique": "deterministic simulation with fault injection (lost CVRs, unaccounted cards, unfindable cards, any pool "
+                 "labelling): accounting invariants right after phantom creation, worst-case scoring on every (manual record, "
+                 "CVR) pair met during the rounds, phantom manual records from both vendors' lookups; shrinking + replay",
+    "text": "seeded search over card bounds / shortfalls per contest and per stratum, style on/off, labellings and rounds with "
+            "unfindable cards; invariants evaluated at the step they concern. Evidence, not proof.",
+    "note": "bounds >= CVR counts as quantified; reference assorters for the 'scored 1/2' clause; Hart lookup on a parallel id scheme",
+}
+CHECKS["C09"] = {
+    "engine": "AuditWorld", "ref": "DESIGN.md 4 (C09)",
+    "technique": "deterministic simulation of operation sequences on shared audit state (rounds, dry run + reset, reset "
+                 "between rounds, repeated summaries, mis-configured contests) against an executable reference model "
+                 "(each assertion's own test on its own data; conjunction over assertions and contests); shrinking + replay",
+    "text": "seeded search over multi-contest audits with different limits/tests/social choice functions and operation "
+            "sequences; recorded p-values, histories, maxima, flags, completion decision and reset state are compared with "
+            "the reference model after every operation. Evidence, not proof.",
+    "note": "reference p-values use a clone of the configured test object; NaN-valued contests exempt from the maximum comparison",
+}
 # claimed in DESIGN.md but not built yet: listed as not applicable *for now* with the honest reason
 NA_EXTRA = {
-    "C08": "check under construction (DESIGN 4)",
-    "C09": "check under construction (DESIGN 4)",
     "C16": "check under construction (DESIGN 4)",
     "C17": "check under construction (DESIGN 4)",
     "C18": "check under construction (DESIGN 4)",
